@@ -115,10 +115,11 @@ InjectFrames ==
   {Frame(0, l, l, "good") : l \in InjGood} \cup {Frame(0, l, l, "undec") : l \in InjUndec} \cup
   {Frame(0, D, n, "short") : n \in InjShort} \cup {Frame(0, n, n, "over") : n \in InjOver}
 
-RECURSIVE SumLen(_)
-SumLen(fs) == IF fs = <<>> THEN 0 ELSE Head(fs).len + SumLen(Tail(fs))
+\* total wire length of fs[i..] (index recursion: linear, traces can have hundreds of frames in flight)
+RECURSIVE SumLenFrom(_, _)
+SumLenFrom(fs, i) == IF i > Len(fs) THEN 0 ELSE fs[i].len + SumLenFrom(fs, i + 1)
 \* bytes of `frames` not yet consumed by the receiver
-Remaining == IF skip > 0 THEN skip + SumLen(Tail(frames)) ELSE SumLen(frames)
+Remaining == IF skip > 0 THEN skip + SumLenFrom(frames, 2) ELSE SumLenFrom(frames, 1)
 
 ---------------------------------------------------------------------------
 (* Step functions: pure transcriptions of the code, used by the actions,   *)
@@ -388,7 +389,9 @@ EmitHist ==
 
 RECURSIVE CapsFrom(_)
 CapsFrom(c) == IF c >= MaxCap THEN {MaxCap} ELSE {c} \cup CapsFrom(GrowSize(c))
-AllBufs == UNION {UNION {{Buf(p, e, c) : e \in p..c} : p \in 0..(c \div 2)} : c \in CapsFrom(InitCap)}
+\* (an operator with a parameter: TLC evaluates parameterless constant definitions at start-up, and this set
+\* is astronomically large at production sizes, where only the trace specification is used)
+AllBufsFrom(c0) == UNION {UNION {{Buf(p, e, c) : e \in p..c} : p \in 0..(c \div 2)} : c \in CapsFrom(c0)}
 TableSock == MaxCap + D
 
 WrRow(L) == LET r == WriteStep(back, L) IN <<L, B(r.ok), Data(r.buf), Space(r.buf), r.buf.cap>>
@@ -400,7 +403,7 @@ RmRow(f) == LET r == ReadMsgAt(back, <<f>>, 0)
             IN <<f.len, f.decl, f.kind, r.res, Data(r.buf), Space(r.buf), r.buf.cap, B(r.setI), B(r.pop)>>
 
 TableInit ==
-  /\ back \in AllBufs /\ txI = FALSE /\ txR = FALSE
+  /\ back \in AllBufsFrom(InitCap) /\ txI = FALSE /\ txR = FALSE
   /\ front = Buf(0, 0, InitCap) /\ rxI = TRUE /\ rxR = FALSE
   /\ nWire = 0 /\ nSock = 0 /\ frames = <<>> /\ skip = 0
   /\ nW = 0 /\ nI = 0 /\ nextId = 1
@@ -450,20 +453,19 @@ P_C11_CanReceive == (RxOn /\ ReadMsg.res = "nothing_read") => (Space(ReadMsg.buf
 
 \* (a) history form: delivered = the well-formed frames, in the order sent, each once, up to the frames still queued;
 \* (c) every malformed frame that left the queue left an error behind, and was not delivered
-RECURSIVE GoodIds(_)
-GoodIds(fs) == IF fs = <<>> THEN <<>>
-               ELSE IF Head(fs).kind = "good" THEN <<Head(fs).id>> \o GoodIds(Tail(fs)) ELSE GoodIds(Tail(fs))
+GoodIds(fs) == LET g == SelectSeq(fs, LAMBDA f : f.kind = "good") IN [i \in 1..Len(g) |-> g[i].id]
 IsPrefixOf(s, t) == Len(s) <= Len(t) /\ \A i \in 1..Len(s) : s[i] = t[i]
-QueuedIds == {frames[i].id : i \in 1..Len(frames)}
 P_C11_History ==
   History =>
-    /\ IsPrefixOf(obs.delivered, GoodIds(obs.sent))
-    /\ \A i \in 1..Len(obs.sent) :
-         LET f == obs.sent[i]
-         IN f.id \notin QueuedIds =>
-              IF f.kind = "good" THEN \E j \in 1..Len(obs.delivered) : obs.delivered[j] = f.id
-              ELSE \E e \in obs.errs : e[1] = f.id
-    /\ Len(obs.delivered) + Cardinality({i \in 1..Len(frames) : frames[i].kind = "good"}) = Len(GoodIds(obs.sent))
+    LET good    == GoodIds(obs.sent)
+        queued  == {frames[i].id : i \in 1..Len(frames)}
+        badGone == {obs.sent[i].id : i \in {j \in 1..Len(obs.sent) : obs.sent[j].kind # "good"}} \ queued
+        errIds  == {e[1] : e \in obs.errs}
+    IN /\ IsPrefixOf(obs.delivered, good)                     \* in order, once, nothing that was not sent
+       /\ Len(obs.delivered) + Cardinality({i \in 1..Len(frames) : frames[i].kind = "good"}) = Len(good)   \* none lost
+       /\ obs.delivered # <<>> => \A i \in 1..Len(frames) : frames[i].id > obs.delivered[Len(obs.delivered)]
+       /\ badGone \subseteq errIds                             \* a malformed frame that left the queue left an error
+       /\ \A i \in 1..Len(obs.delivered) : obs.delivered[i] \notin errIds
 
 \* history-free form of (a): frames enter at the tail and leave only from the head, whole and buffered
 P_C11_DeliverHead ==
